@@ -9,23 +9,23 @@ Check (C01_channel_subset_of_emitted : forall ca cb st0 evs st,
   net_init ca cb = Ok st0 -> net_run st0 evs = Ok st ->
   forall x, incl (ep_out (net_get st x)) (ep_sent (net_get st x))).
 
-Check (C01_e2e_prefix_partial : c05_ka_bound -> forall ca cb st0 evs st,
+Check (C01_e2e_prefix : forall ca cb st0 evs st,
   cfg_ok ca -> cfg_ok cb -> net_init ca cb = Ok st0 ->
   net_run st0 evs = Ok st -> run_age st0 evs ->
   prefix (ep_read (n_b st)) (ep_written (n_a st)) /\ prefix (ep_read (n_a st)) (ep_written (n_b st))).
 
-Check (C01_e2e_finished_complete_partial : c05_ka_bound -> forall ca cb st0 evs st,
+Check (C01_e2e_finished_complete : forall ca cb st0 evs st,
   cfg_ok ca -> cfg_ok cb -> net_init ca cb = Ok st0 ->
   net_run st0 evs = Ok st -> run_age st0 evs ->
   (ep_finished (n_b st) = true -> ep_read (n_b st) = ep_written (n_a st)) /\
   (ep_finished (n_a st) = true -> ep_read (n_a st) = ep_written (n_b st))).
 
-Check (C01_seg_age_implied_below_2GiB_partial : c05_ka_bound -> forall ca cb st0 evs st,
+Check (C01_seg_age_implied_below_2GiB : forall ca cb st0 evs st,
   cfg_ok ca -> cfg_ok cb -> net_init ca cb = Ok st0 -> net_run st0 evs = Ok st ->
   l_len (ep_written (n_a st)) < 2147483647 /\ l_len (ep_written (n_b st)) < 2147483647 ->
   run_age st0 evs).
 
-Check (C01_e2e_below_2GiB_partial : c05_ka_bound -> forall ca cb st0 evs st,
+Check (C01_e2e_below_2GiB : forall ca cb st0 evs st,
   cfg_ok ca -> cfg_ok cb -> net_init ca cb = Ok st0 -> net_run st0 evs = Ok st ->
   l_len (ep_written (n_a st)) < 2147483647 /\ l_len (ep_written (n_b st)) < 2147483647 ->
   (prefix (ep_read (n_b st)) (ep_written (n_a st)) /\ prefix (ep_read (n_a st)) (ep_written (n_b st))) /\
